@@ -34,7 +34,7 @@ func init() {
 // Case description.
 
 type behaviour struct {
-	Kind   string `json:"kind"`                  // full | short | err
+	Kind   string `json:"kind"`                  // full | full-eof (the backend returns the last bytes of the file together with io.EOF) | short | err
 	Chunk  int    `json:"chunk,omitempty"`       // 0-based index of the backend call it applies to
 	By     string `json:"short_by,omitempty"`    // 1 | P-1 | all
 	Target int    `json:"short_count,omitempty"` // count the backend returns at that chunk
@@ -186,7 +186,7 @@ func (se *session) hook(c *memfs.Call) *memfs.Action {
 		return &memfs.Action{Err: linux.EDEADLK}
 	}
 	k := st.k
-	inject := k.Beh.Kind != "full" && idx == k.Beh.Chunk
+	inject := k.Beh.Kind != "full" && k.Beh.Kind != "full-eof" && idx == k.Beh.Chunk
 	if inject && k.Beh.Kind == "err" {
 		return &memfs.Action{Err: injectedErr(k)}
 	}
@@ -206,7 +206,13 @@ func (se *session) hook(c *memfs.Call) *memfs.Action {
 		}
 		d := make([]byte, n) // non-nil even if empty
 		copy(d, st.vfile[rel:])
-		return &memfs.Action{Override: &memfs.Override{Data: d}}
+		return &memfs.Action{Override: &memfs.Override{Data: d, EOF: k.Beh.Kind == "full-eof" && int(rel)+n >= len(st.vfile)}}
+	}
+	if k.Beh.Kind == "full-eof" {
+		if c.Method == "ReadAt" {
+			return &memfs.Action{Override: &memfs.Override{EOF: true}}
+		}
+		return nil
 	}
 	if inject {
 		t := k.Beh.Target
@@ -381,7 +387,10 @@ func judge(k kase, o *outcome, msize uint32, evals *int64) []issue {
 		if k.Op == "write" && !bytes.Equal(c.Data, o.buf[pos:pos+c.L]) {
 			bad("chunk-data", "backend request %d carries bytes that are not p[%d:%d]", j, pos, pos+c.L)
 		}
-		if j < m-1 && (c.Err != nil || c.K != c.L) {
+		// (a complete chunk that the backend delivered together with io.EOF is
+		// neither short nor failed: the server passes the data on and the
+		// client cannot know that the file ends there)
+		if j < m-1 && ((c.Err != nil && !(c.Err == io.EOF && c.K == c.L)) || c.K != c.L) {
 			bad("continued-after-short-or-failed-chunk", "backend request %d returned (%d, %v) for %d bytes, yet request %d followed", j, c.K, c.Err, c.L, j+1)
 		}
 		if c.K > c.L || c.K < 0 {
@@ -466,7 +475,7 @@ func judge(k kase, o *outcome, msize uint32, evals *int64) []issue {
 				}
 			}
 		}
-		if k.Beh.Kind == "full" {
+		if k.Beh.Kind == "full" || k.Beh.Kind == "full-eof" {
 			*evals++
 			want := int64(k.BufLen)
 			if avail < want {
@@ -824,7 +833,7 @@ func run(ctx *fw.Ctx, rep *fw.Report) {
 		"requested payload P = msize - largestFixedSize (msize set with WithMessageSize). Quick: P in {1,2,3,512} with buffer length 0..3P+1 complete, P in {513,1025} with the boundary lengths {0,1,2,m*q-1,m*q,m*q+1 (m=1..3, q = P and P rounded down to 512), 3P+1}, P=2^20 reduced. " +
 		"Thorough: P in {1,2,3,4,511,512,513,1024,1025} with buffer length 0..3P+1 complete, P in {2^20, 4MiB-largestFixedSize} reduced. " +
 		"op in {ReadAt,WriteAt}; file size in {0,1,P-1,P,P+1,2P,2P+1}; the file's bytes at [B,B+size) for B in {0, 2^32+5, 2^40}; offset in B+{0,1,EOF-1,EOF,EOF+1} and, for B=0, {2^32+5, 2^40}; " +
-		"backend behaviour: full, and for EVERY backend request i of the full run: count short by {1,P-1,all} (where that is a shorter, distinct count) and error (linux errno; for P<=4 also a syscall.Errno). " +
+		"backend behaviour: full; for reads also full with the last bytes of the file returned TOGETHER with io.EOF (as os.File does); and for EVERY backend request i of the full run: count short by {1,P-1,all} (where that is a shorter, distinct count) and error (linux errno; for P<=4 also a syscall.Errno). " +
 		"Reduced (MiB-scale P): size {0,P-1,P,2P+1}, B {0,2^32+5}, lengths {0,1,q-1,q,q+1,2q,2q+1 (q = P and P rounded), 3P+1}. " +
 		"One state = one (P,op,length,size,B,offset,behaviour) tuple; transitions = Tread/Twrite requests on the wire; distinct = (op, behaviour kind, length class, offset class, count class, error class, #requests)"
 	rep.Assumptions = append(rep.Assumptions,
@@ -875,6 +884,9 @@ func run(ctx *fw.Ctx, rep *fw.Report) {
 						rep.Count("units", 1)
 						rep.Count("fault_points", int64(len(full.calls)))
 						behs := behaviours(g, full)
+						if op == "read" && fsize > 0 {
+							behs = append(behs, behaviour{Kind: "full-eof"})
+						}
 						for _, b := range behs {
 							kb := k
 							kb.Beh = b
